@@ -128,6 +128,73 @@ CLAIMED['C19'] = (
     'Worker schedules of joblib cannot be forced: the interleaving argument rests on the model, the implementation is compared across '
     'n_jobs; masks without any accepted centre raise in the library and are counted as unsupported.', '4/C19 and notes/C19.md')
 
+CLAIMED['C04'] = (
+    'TLA+ protocol model EvalProtocol.tla (EXTENDS CvSets, RdmsStore): Draw / TooSmall / MakeSets / Fit / Predict / Compare / Ceiling / '
+    'Store / Aggregate with a symbolic evaluation table; TLC enumerates draw and shuffle outcomes; behaviours replayed with forced '
+    'randint / shuffle and recording fitters; executions under real seeds validated by Trace_EvalProtocol.tla',
+    'All eight evaluation routines are one protocol over labelled token objects: TLC explores every draw outcome for small sizes and '
+    'checks PredMatchesSample, SampleIsDraw, FitBeforeUse, ThetaFromOwnFold, NaNIffTooSmall, CeilingSameSample, DofRule, OkMask and '
+    'AllCellsStoredOnce; each behaviour is replayed into the real routine with the random outcomes forced, and every stored cell, '
+    'ceiling, dof and the variances (recomputed from the stored evaluations by definition) are compared; executions under real seeds '
+    'are recorded at randint / shuffle / fitters / compare and must be explained event by event by the protocol actions, with '
+    '"stored = mean of the values of that compare event" checked in integer arithmetic; same seed => bit-identical results.',
+    'Bounded (N = 1-2 samples in the model, 3 RDM groups x 3-4 condition groups; larger in recorded runs); similarity values '
+    'themselves come from rsatoolbox.rdm.compare (decided by C03); boot_testset routines are not in the property\'s list.',
+    '4/C04 and notes/C04.md')
+CLAIMED['C06'] = (
+    'TLA+ definitional model Variances.tla in exact rationals (contrasts of the covariance, n/(n-1) rule, dual-bootstrap combination '
+    'and clamps, NaN-aware means, permutation equivariance) checked by TLC; vectors replayed into extract_variances / Result '
+    'accessors / tests; recorded calls recomputed by Trace_Variances.tla',
+    'TLC enumerates integer covariances (scalar, vector, matrix, 3-stack; with and without ceiling rows; all 46 656 3x3 matrices at the '
+    'thorough tier), n_rdm / n_pattern options and evaluation arrays with NaN marks, checks the dual-bootstrap bounds, non-negativity '
+    'under PSD minors and model-permutation equivariance on the definitions and emits exact expected values; every vector is replayed '
+    '(relative 1e-12), p-values are checked for range, symmetry, unit diagonal, monotonicity along TLC-enumerated shift chains and '
+    'against scipy.stats on eval_fixed outputs; numpy-generated larger inputs are recorded and recomputed by the trace specification.',
+    'The t distribution and the Wilcoxon test come from scipy.stats; bootstrap noise tests on synthetic arrays with fold axes are not '
+    'demanded (see DESIGN section 9).', '4/C06 and notes/C06.md')
+CLAIMED['C13'] = (
+    'TLA+ model MissingData.tla (instantiates Compare.tla): mask classes, Delete, Measure(Masked) = Measure(Deleted) and the V '
+    'sub-block rule as theorems, Misaligned => Error, exact weighted Mean, rescale post-conditions; vectors replayed into compare / '
+    'pool_rdm / fitters / RDMs.mean / rescale; recorded calls validated by Trace_MissingData.tla',
+    'TLC classifies all masks over 3-6 entries x 1-3 RDMs (none, common, differing between or within stacks; also masks produced by '
+    'pattern bootstrap and from_partials), checks the deletion theorems on the exact statistics and emits vectors; every vector is '
+    'replayed as a metamorphic pair (masked call versus the same public function on entry-deleted arrays) and against an independent '
+    'kernel; differing masks must raise; RDMs.mean is compared with exact rationals for per-RDM and per-entry weights; rescale is judged '
+    'by its post-conditions.', 'Bures / Riemann measures excluded (a deleted entry has no meaning for a function of the whole kernel '
+    'matrix); bounded grids.', '4/C13 and notes/C13.md')
+CLAIMED['C15'] = (
+    'TLA+ definitional model Unbalanced.tla (admissible observation pairs, per-pair kernels over shared valid channels, both weightings, '
+    'rdm = self + self - 2 cross in exact rationals) with coincidence theorems checked by TLC; vectors replayed into '
+    'calc_rdm_unbalanced / calc_one_similarity in all dtype and memory-layout flavours; recorded designs recomputed by Trace_Unbalanced.tla',
+    'TLC enumerates designs (2-5 observations, unbalanced repetitions, every NaN channel pattern, six methods, two weightings, optional '
+    'folds and precisions), proves on the definitions where the unbalanced estimator must coincide with calc_rdm, that an all-NaN channel '
+    'equals a deleted channel and that pairs without a valid product are NaN, and emits exact expected RDMs; every vector is replayed '
+    '(rtol 1e-10) in float64/float32/int64/int32, C / Fortran / sliced layouts and compared with calc_rdm where theory says so.',
+    'The compiled engine cannot be rebuilt here (no Cython): the check compares similarity.pyx with the source embedded in similarity.c '
+    'and exits 2 ("compiled engine stale") if they differ; three engine defects are open known findings.', '4/C15 and notes/C15.md')
+CLAIMED['C16'] = (
+    'TLA+ file-system state machine Persist.tla (Save in the code\'s stages to_dict / remove_file / guard / writer, Load, Close over '
+    '2 paths, 2 formats, path / fresh handle / kept handle) with LoadReturnsLastSaved, RefusedLeavesFsUnchanged, '
+    'OverwriteIsReplaceNotMerge, SaveLeavesObjectUnchanged checked by TLC (and five deliberately broken designs that TLC must reject); '
+    'histories replayed on real objects; recorded histories validated by Trace_Persist.tla',
+    'TLC enumerates every save/load history to depth 3-4 and checks the replace-or-refuse properties; each history is replayed in a '
+    'scratch directory with outcome, file key tree, other path\'s bytes, loaded object (field-wise oracle and == where defined) and '
+    'fingerprints of all in-memory objects checked after every step; a catalogue of 249 objects (all eight kinds x descriptor value '
+    'types incl. non-ASCII, NaN, arrays, matrices, None measure) is round-tripped through both formats and three target modes; objects '
+    'after random structural histories (RdmsStore / Dataset operations) are round-tripped and Result test outputs compared.',
+    'Equality oracle is field-wise with numpy.array_equal(equal_nan=True); pickle overwrite semantics taken from the code; operations '
+    'continuing on a reloaded copy are counted, not demanded.', '4/C16 and notes/C16.md')
+CLAIMED['C17'] = (
+    'TLA+ model Transform.tla (exact rationals for rank, positive, sqrt relation, minmax, numpy-quantile geo-topological map, '
+    'Floyd-Warshall geodesic) with nine theorem invariants, plus MonoInvariant / LinInvariant action properties in Compare.tla over ALL '
+    'strictly increasing maps of the value set; vectors replayed into every *_transform and compare before/after',
+    'TLC enumerates vectors of length 3 and 6 over -2..3 with ties and NaN marks, quantile pairs and rank methods with exact expected '
+    'results, and every strictly increasing map, positive scaling and affine map of the finite value set for the invariance clause; '
+    'every vector is replayed through the public transforms (values, descriptors carried over, measure name) and through compare on '
+    'transformed inputs; recorded sessions compare(A,B); compare(T(A),B) are validated by the trace specification.',
+    'NaN entries only where the transform supports them; constant RDMs excluded for minmax/geodesic; quantiles of the geo-topological '
+    'transform are taken over the whole stack as the code does (the weaker reading).', '4/C17 and notes/C17.md')
+
 NOT_YET = {
 }
 
